@@ -70,7 +70,9 @@ func (n *noopStore) ReleaseLease(ctx context.Context, lease Lease) error {
 }
 
 func (n *noopStore) LoadOffset(ctx context.Context, topic string, partition int32) (OffsetState, error) {
-	return OffsetState{Topic: topic, Partition: partition, Offset: 0}, nil
+	// Nothing is ever committed here; -1 (as the etcd store answers for a
+	// partition without a checkpoint) keeps offset 0 from being filtered out.
+	return OffsetState{Topic: topic, Partition: partition, Offset: -1}, nil
 }
 
 func (n *noopStore) CommitOffset(ctx context.Context, state OffsetState) error {
